@@ -112,6 +112,7 @@ def parseIOp (s : String) : Option IOp :=
   if s == "p" then some .persist else if s == "c" then some .crash
   else if s.startsWith "h" then some (.handle (nat! (s.drop 1).toString))
   else if s.startsWith "r" then some (.resolve (nat! (s.drop 1).toString))
+  else if s.startsWith "b" then some (.blocks (nat! (s.drop 1).toString))
   else if s.startsWith "i" then
     match (s.drop 1).toString.splitOn ":" with
     | [id, hash, ia, oa, cltv, scid] => some (.intercept (nat! id) ⟨nat! hash, optNat ia, nat! oa, nat! cltv, optNat scid⟩)
@@ -123,8 +124,8 @@ def showI (s : ISt) : String :=
   s!"held={joinOr ((heldIds s.live).map toString)} queue={joinOr (s.live.queue.map showIcEv)} told={joinOr (s.told.map toString)}"
 
 /-- c10.  ops:
-      icpt (i<id>:<hash>:<incoming amt|->:<outgoing amt>:<outgoing cltv>:<forward scid|-> | h<k> | r<id> | p | c)*  → `held=<ids> queue=<id/scid/hash/in/out/expiry,..> told=<ids>` (sorted)
-          (Restart.irun: intercepted HTLCs held by a forwarding node; i = intercepted, h = handler accepts k HTLCIntercepted events, r = forwarded / failed by the application,
+      icpt (i<id>:<hash>:<incoming amt|->:<outgoing amt>:<outgoing cltv>:<forward scid|-> | h<k> | r<id> | b<height> | p | c)*  → `held=<ids> queue=<id/scid/hash/in/out/expiry,..> told=<ids>` (sorted)
+          (Restart.irun: intercepted HTLCs held by a forwarding node; i = intercepted, h = handler accepts k HTLCIntercepted events, r = forwarded / failed by the application, b = best block becomes <height> (expiry sweep),
            p = manager written, c = crash + restart on the production reload path)
       evlife (close | timeout | h<k> | persist | crash)*  → `part=0/1 queue=<P|F[*],..> resolved=0/1 handledT=0/1`
           (Restart.erun failHtlcPushes: one single-part payment over a channel that is closed on chain; P = PaymentPathFailed, F = PaymentFailed,
